@@ -88,9 +88,8 @@ func (m *C12) isOracleShare(w *chain.World, ctx sdk.Context, denom string) bool 
 	if !strings.HasPrefix(denom, "amm/pool/") {
 		return false
 	}
-	if v, ok := m.oraclePool[denom]; ok {
-		return v
-	}
+	// read at the moment of the increase: governance can switch a pool between the two modes, and
+	// the lock is decided by the mode in force when the shares are committed
 	for _, p := range w.App.AmmKeeper.GetAllPool(ctx) {
 		m.oraclePool[ammtypes.GetPoolShareDenom(p.PoolId)] = p.PoolParams.UseOracle
 	}
